@@ -304,7 +304,13 @@ pub fn run(out: &mut Out, seed: u64, thorough: bool, replay: Option<&str>) {
         out.mark_distinct(len as u64 + 7_000_000);
     }
     // one foreign symbol at every position of a valid 40-digit string (replace and insert)
-    let foreign: Vec<&str> = vec!["+", "-", "_", "g", "G", " ", "\t", "\n", "x", "/", ":", "@", "`", "\u{e9}", "\u{20ac}", "\u{1f600}", "\u{0}", "\u{7f}", "\u{ff}"];
+    // every ASCII character that is not a hex digit (control characters included), and a few
+    // multi-byte ones
+    let mut foreign_owned: Vec<String> = (0u8..128).filter(|b| !(*b as char).is_ascii_hexdigit()).map(|b| (b as char).to_string()).collect();
+    for m in ["\u{e9}", "\u{20ac}", "\u{1f600}", "\u{ff}", "\u{ff10}", "\u{661}"] {
+        foreign_owned.push(m.to_string());
+    }
+    let foreign: Vec<&str> = foreign_owned.iter().map(|x| x.as_str()).collect();
     let positions: Vec<usize> = if thorough { (0..=40).collect() } else { vec![0, 1, 2, 3, 19, 20, 21, 38, 39, 40] };
     for sym in &foreign {
         for &pos in &positions {
